@@ -214,7 +214,10 @@ func (cc *Session) handleHandshakeResponse(info HandshakeResponseInfo) error {
 	} else if info.AuthPlugin == mysql.CachingSHA2Password {
 		succ, password = cc.manager.CheckSha2Password(user, info.Salt, info.AuthResponse)
 	} else {
-		succ, password = cc.manager.CheckPassword(user, info.Salt, info.AuthResponse)
+		succ, password = cc.manager.CheckHashPassword(user, info.Salt, info.AuthResponse)
+		if !succ {
+			succ, password = cc.manager.CheckPassword(user, info.Salt, info.AuthResponse)
+		}
 	}
 
 	if !succ {
